@@ -19,11 +19,25 @@ impl Dd {
     pub fn of(t: TwoFloat) -> Dd {
         Dd { hi: t.hi(), lo: t.lo() }
     }
+    /// The value as a `TwoFloat` of the crate built exactly as users build it (no verif_hooks):
+    /// valid pairs through the checked constructor, the non-finite values of the API pool by
+    /// looking up the object the API returned.  Anything else cannot be built without the
+    /// hook (use `tfh`).
     pub fn tf(self) -> TwoFloat {
-        twofloat::verif_hooks::raw(self.hi, self.lo)
+        use std::convert::TryFrom;
+        if let Ok(t) = TwoFloat::try_from((self.hi, self.lo)) {
+            return t;
+        }
+        for (_, t) in nonfinite_pool_objects().iter() {
+            if same_word(t.hi(), self.hi) && same_word(t.lo(), self.lo) {
+                return *t;
+            }
+        }
+        panic!("cannot construct {:?} through the public API (checked constructor rejected it)", self)
     }
-    pub fn tfn(self) -> tf_nostd::TwoFloat {
-        tf_nostd::verif_hooks::raw(self.hi, self.lo)
+    /// unchecked construction in the instrumented copy of the crate (feature verif_hooks)
+    pub fn tfh(self) -> tf_hooked::TwoFloat {
+        tf_hooked::verif_hooks::raw(self.hi, self.lo)
     }
     /// exact value (both words must be finite)
     pub fn big(self) -> Big {
@@ -161,13 +175,27 @@ pub fn f64_exp(ctx: &mut Ctx, emin: i64, emax: i64) -> f64 {
 /// exponent choice: mostly near 0 (clamped into range) and uniform, sometimes the edges
 pub fn exp_in(ctx: &mut Ctx, emin: i64, emax: i64) -> i64 {
     debug_assert!(emin <= emax && emin >= -1022 && emax <= 1023);
-    let c = ctx.weighted(&[6, 6, 1, 1, 2]);
+    let c = ctx.weighted(&[6, 6, 1, 1, 2, 1]);
     let e = match c {
         0 => ctx.range(-3, 3),
         1 => ctx.range(emin, emax),
         2 => emin + ctx.range(0, 2),
         3 => emax - ctx.range(0, 2),
-        _ => ctx.range(-60, 60),
+        4 => ctx.range(-60, 60),
+        _ => {
+            // exponents at which something changes in binary64 / binary32 / the integer types /
+            // the crate's own range switches (low words start to be subnormal at 2^-969 ...)
+            const SPECIAL: [i64; 40] = [
+                -1022, -1021, -1020, -1000, -999, -971, -970, -969, -968, -967, -960, -916, -900, -511, -510, -450, -400, -150, -149, -127, -126, -54, -53, -27,
+                26, 27, 52, 53, 54, 63, 64, 127, 128, 400, 450, 900, 960, 996, 1000, 1022,
+            ];
+            let e = SPECIAL[ctx.below(SPECIAL.len() as u64) as usize];
+            if e < emin || e > emax {
+                ctx.range(emin, emax)
+            } else {
+                e
+            }
+        }
     };
     e.clamp(emin, emax)
 }
@@ -438,4 +466,85 @@ pub fn f64_any(ctx: &mut Ctx) -> f64 {
         6 => f64::from_bits(ctx.word()),
         _ => f64::NAN,
     }
+}
+
+/// Non-finite / NaN-carrying values obtained by actually calling the public API.
+pub fn nonfinite_pool_objects() -> &'static Vec<(&'static str, TwoFloat)> {
+    static P: std::sync::OnceLock<Vec<(&'static str, TwoFloat)>> = std::sync::OnceLock::new();
+    P.get_or_init(|| {
+        let inf = f64::INFINITY;
+        vec![
+            ("NAN", TwoFloat::NAN),
+            ("INFINITY", TwoFloat::INFINITY),
+            ("NEG_INFINITY", TwoFloat::NEG_INFINITY),
+            ("new_add(inf,1)", TwoFloat::new_add(inf, 1.0)),
+            ("new_add(-inf,1)", TwoFloat::new_add(-inf, 1.0)),
+            ("new_sub(1,inf)", TwoFloat::new_sub(1.0, inf)),
+            ("new_mul(1e300,1e300)", TwoFloat::new_mul(1e300, 1e300)),
+            ("new_mul(-1e300,1e300)", TwoFloat::new_mul(-1e300, 1e300)),
+            ("new_div(1,0)", TwoFloat::new_div(1.0, 0.0)),
+            ("new_div(0,0)", TwoFloat::new_div(0.0, 0.0)),
+            ("from(NaN)", TwoFloat::from(f64::NAN)),
+            ("from(inf)", TwoFloat::from(inf)),
+            ("from(-inf)", TwoFloat::from(-inf)),
+            ("exp(1000)", TwoFloat::from(1000.0).exp()),
+            ("exp2(2000)", TwoFloat::from(2000.0).exp2()),
+            ("sqrt(-1)", TwoFloat::from(-1.0).sqrt()),
+            ("ln(0)", TwoFloat::from(0.0).ln()),
+            ("1/0", 1.0 / TwoFloat::from(0.0)),
+            ("0/0", TwoFloat::from(0.0) / TwoFloat::from(0.0)),
+            ("MAX+MAX", TwoFloat::MAX + TwoFloat::MAX),
+            ("MAX*2", TwoFloat::MAX * 2.0),
+            ("MIN*MAX", TwoFloat::MIN * TwoFloat::MAX),
+            ("-NAN", -TwoFloat::NAN),
+            ("INFINITY-INFINITY", TwoFloat::INFINITY - TwoFloat::INFINITY),
+            ("asin(2)", TwoFloat::from(2.0).asin()),
+        ]
+    })
+}
+
+/// valid double-double whose high word lies in the CLOSED range [2^emin, 2^emax_closed]: like
+/// `dd_exp(emin, emax_closed - 1)` but the upper end point +-2^emax_closed itself is produced too
+pub fn dd_closed(ctx: &mut Ctx, emin: i64, emax_closed: i64, zero_ok: bool) -> Dd {
+    if ctx.chance(1, 48) {
+        ctx.label("range-endpoint");
+        let hi = pow2_f64(if ctx.chance(3, 4) { emax_closed } else { emin }) * if ctx.flag() { -1.0 } else { 1.0 };
+        return dd_at(ctx, hi);
+    }
+    dd_exp(ctx, emin, emax_closed - 1, zero_ok)
+}
+
+/// the crate's own published constants (and MAX/MIN/MIN_POSITIVE) as operands
+pub fn constant_operands() -> &'static Vec<(&'static str, Dd)> {
+    static C: std::sync::OnceLock<Vec<(&'static str, Dd)>> = std::sync::OnceLock::new();
+    C.get_or_init(|| {
+        use twofloat::consts as k;
+        vec![
+            ("E", k::E), ("FRAC_1_PI", k::FRAC_1_PI), ("FRAC_2_PI", k::FRAC_2_PI), ("FRAC_2_SQRT_PI", k::FRAC_2_SQRT_PI), ("FRAC_1_SQRT_2", k::FRAC_1_SQRT_2),
+            ("FRAC_PI_2", k::FRAC_PI_2), ("FRAC_PI_3", k::FRAC_PI_3), ("FRAC_PI_4", k::FRAC_PI_4), ("FRAC_PI_6", k::FRAC_PI_6), ("FRAC_PI_8", k::FRAC_PI_8),
+            ("LN_10", k::LN_10), ("LN_2", k::LN_2), ("LOG10_E", k::LOG10_E), ("LOG2_E", k::LOG2_E), ("PI", k::PI), ("SQRT_2", k::SQRT_2), ("TAU", k::TAU),
+            ("LOG10_2", k::LOG10_2), ("LOG2_10", k::LOG2_10), ("MAX", TwoFloat::MAX), ("MIN", TwoFloat::MIN), ("MIN_POSITIVE", TwoFloat::MIN_POSITIVE),
+        ]
+        .into_iter()
+        .map(|(n, t)| (n, Dd::of(t)))
+        .collect()
+    })
+}
+
+/// with probability 1/den: one of the published constants (possibly negated, halved or doubled)
+pub fn maybe_constant(ctx: &mut Ctx, den: u64, allow_extremes: bool) -> Option<Dd> {
+    if !ctx.chance(1, den) {
+        return None;
+    }
+    let c = constant_operands();
+    let n = if allow_extremes { c.len() } else { c.len() - 3 };
+    let d = c[ctx.below(n as u64) as usize].1;
+    ctx.label("operand:published-constant");
+    let d = match ctx.below(6) {
+        0 => d.neg(),
+        1 if d.hi.abs() < 1e300 && d.hi.abs() > 1e-300 => Dd::new(d.hi * 2.0, d.lo * 2.0),
+        2 if d.hi.abs() < 1e300 && d.hi.abs() > 1e-290 => Dd::new(d.hi * 0.5, d.lo * 0.5),
+        _ => d,
+    };
+    Some(d)
 }
